@@ -95,7 +95,7 @@ def base_model(r, n_species=None, n_rxn=None, delays=True, rules=True):
     for _ in range(n_rxn if n_rxn is not None else r.randint(1, 3)):
         m["reactions"].append(safe_reaction(r, m, species))
     if delays and r.random() < 0.5:
-        netgen.add_delays(r, m, 0.25, 5.0, p=0.6)
+        netgen.add_delays(r, m, 0.25, 5.0, p=0.6, markers=True)
     if rules and r.random() < 0.4:
         add_species_rule(r, m)
     return m
@@ -151,7 +151,11 @@ def gen_history(r, n_ops, alphabet, param_rule_stratum=False):
     for _ in range(n_ops):
         kind = r.choice(alphabet)
         rule_targets = [ru["target"] for ru in shadow["rules"]]
-        plain_species = [s for s in shadow["species"] if s not in rule_targets]
+        # marker species (consumed by a delayed part) must not be consumed by anything else, or counts could go negative
+        markers = {s_ for x in shadow["reactions"] if x.get("delay") for s_ in (x["delay"].get("reactants") or [])}
+        plain_species = [s for s in shadow["species"] if s not in rule_targets and s not in markers]
+        if not plain_species:
+            continue
         if kind == "add_species":
             free = [s for s in NAMES if s not in shadow["species"]]
             if not free or len(plain_species) >= 5:
@@ -170,9 +174,12 @@ def gen_history(r, n_ops, alphabet, param_rule_stratum=False):
                 continue
             if r.random() < 0.3:
                 saved = copy.deepcopy(trial["params"])
-                netgen.add_delays(r, {"species": plain_species, "reactions": [rx], "params": trial["params"]}, 0.25, 5.0, p=1.0)
+                rx0 = copy.deepcopy(rx)
+                netgen.add_delays(r, {"species": plain_species, "reactions": [rx], "params": trial["params"]}, 0.25, 5.0,
+                                  p=1.0, markers=True, context=trial["reactions"])
                 if not netgen.bounded(trial):
-                    rx["delay"] = None
+                    rx.clear()
+                    rx.update(rx0)
                     trial["params"] = saved
             new_params = {k: v for k, v in trial["params"].items() if k not in shadow["params"]}
             ops.append(["add_reaction", copy.deepcopy(rx), new_params])
@@ -452,7 +459,19 @@ class Machine:
                 break
             self.count("ops")
             self.count("op_" + op[0])
-            getattr(self, "op_" + op[0])(op, i)
+            try:
+                getattr(self, "op_" + op[0])(op, i)
+            except Exception as e:
+                import traceback
+                tb = traceback.extract_tb(e.__traceback__)
+                last = tb[-1]
+                in_library = ("bioscrape" in last.filename or last.filename.endswith(".pyx")) and "/verif/" not in last.filename
+                if not in_library:
+                    raise            # a harness error: classified as such by the driver
+                self.bad("operation_raised", {"op": op[0] if op[0] != "simulate" else "simulate_" + op[1],
+                                              "after_restart": any(x.startswith("restart") for x in self.sig_ops)},
+                         error=f"{type(e).__name__}: {str(e)[:200]}", where=f"{last.name}")
+                break
             self.sig_ops.append(op[0] if op[0] != "simulate" else "simulate_" + op[1])
             if op[0] not in ("probe",) and not self.viols:
                 d = dict_check(self.live, self.shadow, f"after op {i} {op[0]}", self.ruled_params)
@@ -733,7 +752,8 @@ class Machine:
         sop = sim_op(r, self.shadow, ["ssa"])
         before_run = simulate(other, None, sop)
         delta = None
-        plain = [s for s in names if s not in [ru["target"] for ru in self.shadow["rules"]]]
+        markers = {s_ for x in self.shadow["reactions"] if x.get("delay") for s_ in (x["delay"].get("reactants") or [])}
+        plain = [s for s in names if s not in [ru["target"] for ru in self.shadow["rules"]] and s not in markers]
         if how == "set_parameter" and [p for p in self.shadow["params"] if p not in self.ruled_params]:
             p = sorted(p for p in self.shadow["params"] if p not in self.ruled_params)[0]
             v = float(self.shadow["params"][p]) * 1.5 + 0.25
@@ -754,7 +774,9 @@ class Machine:
         self.count("independence_checks")
         after_s = {k: float(v) for k, v in other.get_species_dictionary().items()}
         after_p = named_params(other)
-        if before_s != after_s or before_p != after_p:
+        def _same(a, b):
+            return set(a) == set(b) and all((a[k] == b[k]) or (a[k] != a[k] and b[k] != b[k]) for k in a)
+        if not _same(before_s, after_s) or not _same(before_p, after_p):
             self.bad(cls, dict(sig, independence=how), what="editing one object changed the other's values",
                      before=[before_s, before_p], after=[after_s, after_p])
             return delta
